@@ -114,10 +114,10 @@ writer_step(void)
 {
     if (writer_done) return;
     if (written == N) {
+        /* source wind-down (source.c Finalize + acquire.c callbacks): raise the filter's stop request,
+         * wait for the filter thread to finish (sig_source_stop_sink joins it; checked against the real
+         * acquire.c by the whole-runtime harness), and only then tell the sink to stop */
         flt.is_stopping = 1;
-#if SCN == 2
-        sink_told_to_stop = 1; /* source raises both stop flags back to back */
-#endif
         writer_done = 1;
         return;
     }
@@ -162,7 +162,8 @@ sink_step(void)
         for (int k = 0; k <= NMAX / K + 1; ++k)
             if (*pos <= (size_t)k * OUT_BYTES && (size_t)k * OUT_BYTES < out.head) {
                 const struct VideoFrame* f = (const struct VideoFrame*)(out.data + (size_t)k * OUT_BYTES);
-                seen_hdr[k] = *f;
+                seen_hdr[k].bytes_of_frame = f->bytes_of_frame; seen_hdr[k].frame_id = f->frame_id;
+                seen_hdr[k].shape.type = f->shape.type; seen_hdr[k].shape.dims.width = f->shape.dims.width; seen_hdr[k].shape.strides.planes = f->shape.strides.planes;
                 for (int i = 0; i < NPX; ++i) seen_px[k][i] = ((const float*)f->data)[i];
                 ++emitted;
             }
@@ -187,8 +188,19 @@ env_step(void)
     in_env = 0;
 }
 
-void verif_on_lock_acquire(struct lock* l) { if (!in_env) env_step(); } /* before every atomic channel operation */
-void verif_on_lock_release(struct lock* l) { if (!in_env && l == &out.lock) env_step(); } /* and right after an operation on the output ring (publish) */
+/* Scheduling boundaries.  The filter only observes its peers through (1) what channel_read_map
+ * returns, (2) the stop flag at the loop head, (3) space in the output ring; peers observe it
+ * through what it has committed to the output ring.  Input commits and the stop flag raised
+ * anywhere inside an iteration are indistinguishable from the same events at the preceding
+ * sleep, so the writer acts at the sleep boundaries (any number of frames per boundary); the
+ * sink may act right after every operation on the output ring (in particular right after a
+ * publish) and at the sleeps. */
+void verif_on_lock_acquire(struct lock* l) {}
+void
+verif_on_lock_release(struct lock* l)
+{
+    if (!in_env && !main_done && l == &out.lock && ND(bool_t)) { in_env = 1; sink_step(); in_env = 0; }
+}
 void verif_on_notify(struct condition_variable* cv) {}
 void
 verif_on_wait(struct condition_variable* cv, struct lock* l)
@@ -208,9 +220,23 @@ clock_sleep_ms(struct clock* c, float ms)
 {
     ++polls;
     VASSUME(polls <= POLL_MAX);
-    env_step();
-    env_step();
-    env_step();
+    in_env = 1;
+#ifdef ARRIVALS
+    /* arrival pattern fixed per harness instance: nibble i of ARRIVALS = number of input frames
+     * that arrive during the i-th sleep; the stop request follows the last frame (same sleep if
+     * STOP_SAME, else the next one).  Concrete arrivals keep every frame pointer concrete (with
+     * symbolic arrivals the formula exceeded 24 GB); the sink's timing stays symbolic. */
+    {
+        int g = (int)((ARRIVALS >> (4 * (polls - 1))) & 15);
+        for (int i = 0; i < g; ++i) writer_step();
+        if (written == N && (STOP_SAME || g == 0)) writer_step(); /* raises the stop request */
+    }
+#else
+    for (int i = 0; i <= NMAX; ++i)
+        if (ND(bool_t)) writer_step(); /* a group of input frames arrives (and possibly the stop request) */
+#endif
+    if (ND(bool_t)) sink_step();
+    in_env = 0;
 }
 void thread_init(struct thread* t) { t->is_live_ = 0; }
 uint8_t thread_create(struct thread* t, void (*p)(void*), void* a) { return 1; }
@@ -254,15 +280,22 @@ main(void)
 int
 main(void)
 {
-    channel_new(&out, OUT_BYTES + 8);
+#ifndef OUT_CAP_FRAMES
+#define OUT_CAP_FRAMES 1
+#endif
+    channel_new(&out, OUT_CAP_FRAMES * OUT_BYTES + 8);
     /* previously used memory: the pixel area of every output slot holds arbitrary bytes (headers are
      * always fully written by the filter) */
     for (size_t k = 0; k < TAPE_INIT / OUT_BYTES; ++k)
-        for (size_t i = 0; i < 4 * NPX; ++i) out.data[k * OUT_BYTES + sizeof(struct VideoFrame) + i] = ND(uint8_t);
+        for (size_t i = 0; i < NPX; ++i) ((float*)(out.data + k * OUT_BYTES + sizeof(struct VideoFrame)))[i] = ND(float);
     video_filter_init(&flt, 0, (NMAX + 1) * IN_BYTES + 8, &out);
     video_filter_configure(&flt, K);
+#ifdef ARRIVALS
+    N = (int)((ARRIVALS & 15) + ((ARRIVALS >> 4) & 15) + ((ARRIVALS >> 8) & 15) + ((ARRIVALS >> 12) & 15));
+#else
     N = ND(uint8_t);
     VASSUME(N >= 1 && N <= NMAX);
+#endif
     snk.id = ++out.holds.n; out.holds.pos[snk.id - 1] = 0; /* the sink registers before the run */
     prefill();
     flt.is_stopping = 0;
@@ -271,8 +304,9 @@ main(void)
     main_done = 1;
     VASSERT(writer_done, "harness: environment writer did not finish (cut by the poll bound)");
     VASSERT(rc == 0, "filter thread reported an error");
-    /* what is still queued is consumed now (unless the storage has been stopped) */
-    if (!storage_stopped) { in_env = 1; sink_step(); in_env = 0; }
+    /* the filter thread has finished: now the sink is told to stop and does its final flush */
+    sink_told_to_stop = 1;
+    in_env = 1; sink_step(); sink_step(); in_env = 0;
     for (int j = 0; j < NMAX / K + 2; ++j)
         if (j < emitted) check_emitted(j);
     int queued = storage_stopped && out.head > sink_pos_at_stop;
@@ -286,8 +320,7 @@ main(void)
     if (storage_stopped) VASSERT(emitted >= complete, "C10: storage stopped before every complete window reached it");
 #endif
     VASSERT(flt.is_running == 0 && flt.is_stopping == 0, "filter flags not reset");
-    COVER(emitted >= 2);
-    COVER(N == NMAX && emitted == complete + trailing);
+    COVER(emitted == complete + trailing);
 #if SCN == 2
     COVER(storage_stopped);
 #endif
